@@ -11,6 +11,7 @@ import (
 	"fmt"
 	"sort"
 	"strings"
+	"time"
 
 	"verif/internal/eng"
 	"verif/internal/gen"
@@ -45,6 +46,7 @@ type out struct {
 	Disagree   []disagreement `json:"disagree"`
 	Samples    []string       `json:"samples"`
 	HarnessErr []string       `json:"harness_err"`
+	Aborted    int            `json:"aborted"` // programs not evaluated because the batch already produced enough witnesses
 }
 
 // classify turns a diff into the coarse mismatch kind used in signatures.
@@ -81,7 +83,15 @@ func errClass(e string) string {
 	return strings.ReplaceAll(e, " ", "-")
 }
 
+// realTimeout bounds one real evaluation. The model bounds every program to 2*10^5 steps (a few tens
+// of milliseconds of real execution), so this is a >100x margin even on a loaded machine.
+var realTimeout = 8 * time.Second
+
 func compare(p *gen.Program) (agree bool, decided bool, want gen.Outcome, got rz.Result, src string, steps int, herr error) {
+	return compareT(p, realTimeout)
+}
+
+func compareT(p *gen.Program, timeout time.Duration) (agree bool, decided bool, want gen.Outcome, got rz.Result, src string, steps int, herr error) {
 	want, in, ok, err := eng.Model(p)
 	if err != nil {
 		return false, false, want, got, "", 0, err
@@ -90,7 +100,7 @@ func compare(p *gen.Program) (agree bool, decided bool, want gen.Outcome, got rz
 		return false, false, want, got, "", 0, nil
 	}
 	src = gen.RenderProgram(p)
-	got = rz.Run(src, rz.Opts{GlobalNames: eng.GlobalNames(want)})
+	got = rz.Run(src, rz.Opts{GlobalNames: eng.GlobalNames(want), Timeout: timeout})
 	return rz.Diff(want, got) == "", true, want, got, src, in.Steps, nil
 }
 
@@ -114,6 +124,7 @@ func worker(kind string, data json.RawMessage) any {
 		runProbes(o, strings.TrimPrefix(c.Replay, "probe:"))
 		return o
 	}
+	hangs, shrunk := 0, 0
 	for i := c.From; i < c.From+c.N; i++ {
 		p, g := c.Batch.Program(i)
 		o.Programs++
@@ -144,19 +155,35 @@ func worker(kind string, data json.RawMessage) any {
 			continue
 		}
 		d := disagreement{Index: i, Source: src, Diff: rz.Diff(want, got), Sig: "generated:" + classify(want, got)}
-		// shrink to a smaller witness of the same mismatch kind
 		kind := classify(want, got)
-		gen.Shrink(p, func(q *gen.Program) bool {
-			a, dec, w2, g2, _, _, he := compare(q)
-			return he == nil && dec && !a && classify(w2, g2) == kind
-		}, 400)
-		_, dec, w2, g2, s2, _, _ := compare(p)
-		if dec {
-			d.Shrunk = s2
-			d.Diff = rz.Diff(w2, g2)
+		if kind == "hang" {
+			hangs++
+		}
+		// shrink to a smaller witness of the same mismatch kind (bounded: at most a few per batch, short
+		// timeouts for candidates; a candidate that times out is not "the same failure")
+		if shrunk < 4 && kind != "hang" {
+			shrunk++
+			deadline := time.Now().Add(60 * time.Second)
+			gen.Shrink(p, func(q *gen.Program) bool {
+				if time.Now().After(deadline) {
+					return false
+				}
+				a, dec, w2, g2, _, _, he := compareT(q, 2*time.Second)
+				return he == nil && dec && !a && classify(w2, g2) == kind
+			}, 300)
+			_, dec, w2, g2, s2, _, _ := compare(p)
+			if dec && classify(w2, g2) == kind {
+				d.Shrunk = s2
+				d.Diff = rz.Diff(w2, g2)
+			}
 		}
 		if len(o.Disagree) < 10 {
 			o.Disagree = append(o.Disagree, d)
+		}
+		if hangs >= 2 || len(o.Disagree) >= 10 {
+			// enough witnesses from this batch: the rest of the batch would only cost time
+			o.Aborted = c.From + c.N - i - 1
+			break
 		}
 	}
 	return o
@@ -219,6 +246,9 @@ func drive(d *mon.Driver, replay string) int {
 		}
 		programs += o.Programs
 		discarded += o.Discarded
+		if o.Aborted > 0 {
+			d.Event("programs-skipped-after-enough-witnesses", o.Aborted)
+		}
 		d.Eval(o.Programs - o.Discarded)
 		d.Event("programs-agree", o.Agree)
 		d.Event("model-steps", int(o.Steps))
